@@ -41,7 +41,7 @@ def nelem(t):
     return (t["nr"] - 1) * t["nt"] * (t["nz"] - 1)
 
 
-def gen_tube(rng, ntime, dim=None, mult=1, level=150.0, compressive=False, uniaxial=None):
+def gen_tube(rng, ntime, dim=None, mult=1, level=150.0, compressive=False, uniaxial=None, special=None):
     dim = dim or rng.choice([1, 2, 3])
     t = {"r": 10.0, "t": 1.0, "h": rng.choice([10.0, 25.0]), "nr": rng.randint(2, 3), "nt": rng.randint(3, 4), "nz": rng.randint(2, 3),
          "mult": mult, "dim": dim}
@@ -50,6 +50,15 @@ def gen_tube(rng, ntime, dim=None, mult=1, level=150.0, compressive=False, uniax
     for e in range(ne):
         if uniaxial is not None:
             base = np.zeros((3, 3)); base[2, 2] = uniaxial
+        elif special is not None:
+            # states with repeated principal values, in the principal frame and in a rotated one
+            d = {"equibiaxial": [level, level, 0.0], "hydrostatic": [level, level, level], "biaxial-compression": [level, -0.3 * level, -0.3 * level],
+                 "uniaxial-x": [level, 0.0, 0.0]}[special]
+            base = np.diag(d)
+            if e % 2:
+                a = np.array([[rng.uniform(-1, 1) for _ in range(3)] for _ in range(3)])
+                qm, _ = np.linalg.qr(a)
+                base = qm @ base @ qm.T
         else:
             a = np.array([[rng.uniform(-1, 1) for _ in range(3)] for _ in range(3)])
             base = (a + a.T) / 2 * level
@@ -92,8 +101,8 @@ def transform(case, f):
 
 
 def run(ctx):
-    ctx.rule = ("synthetic receivers (1-2 panels x 1-2 tubes with equal tube counts, multipliers 1-3, 1D/2D/3D element layouts, "
-                "random symmetric stress tensors per element ramping over 1-3 time points (one point = the static branch), custom constant-property ceramics and "
+    ctx.rule = ("synthetic receivers (1-3 panels of 1-3 tubes each, equal and unequal tube counts, multipliers 1-3, 1D/2D/3D element layouts, "
+                "random symmetric stress tensors per element (and equibiaxial, hydrostatic, mixed states with repeated principal values, in principal and rotated frames) ramping over 1-3 time points (one point = the static branch), custom constant-property ceramics and "
                 "the shipped SiC variants, service times 0 .. 1e5); each base case with its transforms (rotation, scale 1.5, "
                 "longer time, doubled height, compressive, uniaxial) for all eight models. one case = one receiver x 8 models; "
                 "all non-trivial")
@@ -113,12 +122,13 @@ def run(ctx):
         cases.append(c)
         return c["id"]
 
-    for i in range(ctx.budget(6, 40)):
+    for i in range(ctx.budget(8, 42)):
         ntime = rng.choice([1, 2, 2, 3])        # one time point = the time-independent (static) branch
         times = [0.0] + [float(k + 1) for k in range(ntime - 1)]
-        npan = rng.randint(1, 2)
-        ntub = rng.randint(1, 2)
-        panels = [[gen_tube(rng, ntime, mult=rng.randint(1, 3)) for _ in range(ntub)] for _ in range(npan)]
+        counts = [[2, 2], [2], [3, 1], [1, 1], [2, 2, 2], [1], [1, 2, 3], [3, 3]][i % 8]       # tubes per panel
+        special = [None, None, "equibiaxial", None, "hydrostatic", "biaxial-compression", "uniaxial-x"][i % 7]
+        panels = [[gen_tube(rng, ntime, mult=rng.randint(1, 3), special=special, level=rng.choice([120.0, 150.0, 180.0]))
+                   for _ in range(ntub)] for ntub in counts]
         mat = custom_material(rng) if i % 3 else {"kind": "shipped", "variant": rng.choice(["base", "cares"])}
         base = {"material": mat, "times": times, "time": rng.choice([0.0, 100.0, 1.0e4]), "models": MODELS, "panels": panels}
         b = add(base)
@@ -171,10 +181,14 @@ def run(ctx):
             if not all(0.0 <= a <= 1.0 and math.isfinite(a) for a in allv):
                 findings.append((c, "%s: a reliability outside [0, 1]: %s" % (m, allv)))
             # aggregation
-            mults = np.array([[t["mult"] for t in p] for p in c["panels"]], dtype=float)
-            lt = np.log(np.maximum(v["tube"], 1e-300)).reshape(mults.shape)
+            lt = np.log(np.maximum(v["tube"], 1e-300))
             if np.all(v["tube"] > 1e-250):
-                pan = np.exp(np.sum(lt * mults, axis=1))
+                pan, k0 = [], 0
+                for p in c["panels"]:
+                    ms = np.array([t["mult"] for t in p], dtype=float)
+                    pan.append(math.exp(float(np.sum(lt[k0:k0 + len(p)] * ms))))
+                    k0 += len(p)
+                pan = np.array(pan)
                 if not np.allclose(pan, v["panel"], rtol=1e-9, atol=1e-300) or abs(np.prod(v["panel"]) - v["overall"]) > 1e-9 * v["overall"] + 1e-300:
                     findings.append((c, "%s: panel/overall reliability is not the product of tube reliabilities raised to their multipliers" % m))
     for kind, a, b in jobs:
